@@ -307,7 +307,7 @@ def cases(draw):
     y = draw(st.one_of(st.sampled_from([2000, 2019, 2020, 2023, 2024]),
                        st.integers(1900, 2100)))
     mo = draw(st.integers(1, 12))
-    if draw(st.integers(0, 2)) == 0:
+    if draw(st.integers(0, 3)) == 0:
         d = _dim(cal, y, mo) - draw(st.integers(0, 2))   # month end
     else:
         d = draw(st.integers(1, 28))
@@ -317,9 +317,7 @@ def cases(draw):
     icp = _spell(icp_c, draw(st.sampled_from(ZONE_SPELL)),
                  draw(st.sampled_from(['basic', 'ext', 'hour', 'date'])), xyd)
 
-    # (forms counting back from END twice as likely: with month / year steps
-    # they clamp day-of-month on the way back)
-    form = draw(st.sampled_from(FORMS + ['Rn/Pk/E', 'Pk/E', 'Rn//E']))
+    form = draw(st.sampled_from(FORMS))
     uses = USES[form]
     step = draw(_step())
     m = draw(st.one_of(st.integers(0, 12), st.integers(0, 40)))
